@@ -509,6 +509,13 @@ def C14(tier, seed):
         "for EVERY k from 1 to (requests of the fault-free run)+1, in fail-once and fail-from-k-on modes, both widths; one event per run carrying the allocator log of set-up, call and the caller's ordinary cleanup; TLC folds it through the ledger automaton and requires the out-of-memory code exactly when a request failed. "
         "Released blocks are poisoned and really freed (ASan: touching one is a crash). non-trivial = the failure position lies inside the call's allocation sequence; distinct by (operation, inputs, k, mode)",
         ["TLC/SANY, CommunityModules", "spec/UriLedger.tla", "recording/fault-injecting manager of the harness; ASan for use-after-free"], level="fault_enumeration")
+    # failures inside histories: random sessions in which a quarter of the allocating calls run with a failing request (Trace_Session:
+    # out-of-memory code exactly when a request failed, the other URIs of the session unchanged and usable, ledger balanced at the end)
+    out = os.path.join(vlib.RUNROOT, "run", "C14")
+    h = vlib.run_harness(vlib.build("asan"), ["session", "--mode", "random", "--n", "6000" if tier == "thorough" else "400", "--seed", str(seed + 3), "--tier", tier], out, "c14session", timeout=3000)
+    res.violations += harness_crash_violations(h, "C14")
+    res.add_stats(vlib.merge_stats(h["stats"]))
+    res.violations += validate_stream(res, "Trace_Session", out, "c14session", "C14", also=("C13",))
     res.coverage["exhaustive"] = True
     res.coverage["exhaustive_note"] = "every failure position of every listed (operation, input) shape, both modes; the list of shapes is finite and fixed per tier"
     return res
